@@ -106,6 +106,12 @@ class DispatchStream:
                     else:
                         cl.message_callback_remove(act[1])
             cb.__name__ = f"cb{i}"
+            if i % 3 == 0 and i > 0:
+                # a handler whose truth value is false (a callable container that is still empty): registered like any other
+                class Falsy(list):
+                    def __call__(self, cl, ud, msg):
+                        return cb(cl, ud, msg)
+                return Falsy()
             return cb
         obs = []
         mid = 0
